@@ -29,6 +29,15 @@ type loopInfo struct {
 	loops map[*ssa.BasicBlock]*loopRec
 }
 
+func (li *loopInfo) inLoop(b *ssa.BasicBlock) bool {
+	for _, lp := range li.loops {
+		if lp != nil && lp.blocks[b] {
+			return true
+		}
+	}
+	return false
+}
+
 func (li *loopInfo) isBackEdge(from, to *ssa.BasicBlock) bool {
 	return li.loops[to] != nil && to.Dominates(from)
 }
